@@ -510,11 +510,17 @@ def _saved_position_exact(ctx, rule):
     return c08.r4_saved_position(ctx, rule)
 
 
+def _canonical_descent(ctx, rule):
+    # a restored queue holds every frontier pre-terminal ONCE: the restore walk follows one canonical path per node (seed C02-k
+    # passed left_index on unchanged in the recursion, so a node was re-created once per path that reaches it)
+    from . import c08
+    return c08.r3_canonical_descent(ctx, rule)
+
 def rules(tier):
     return [('C02.R12', r12_queue_conservation), ('C02.R1', lambda c, r: r1_adoption_kernel(c, r)), ('C02.R2', r2_predecessor), ('C02.R3', r3_coparent_prob),
             ('C02.R4', r4_copy_before_mutate), ('C02.R5', r5_all_children_pushed), ('C02.R6', r6_seeding),
             ('C02.R7', c01.r3b_prob_pure), ('C02.R8', c01.r4_prob_pt_coupling), ('C02.R9', c01.r5_successor), ('C02.R10', _mask_insertion),
-            ('C02.R11', _exact_float), ('C02.R13', r13_queue_state_per_object), ('C02.R14', _saved_position_exact)] + _loader_bundle() + []
+            ('C02.R11', _exact_float), ('C02.R13', r13_queue_state_per_object), ('C02.R14', _saved_position_exact), ('C02.R15', _canonical_descent)] + _loader_bundle() + []
 
 
 META = {
